@@ -34,6 +34,8 @@ def run(rep):
     rep.guard(c15.n9, rep, w, 'C13')    # a string function is a function of its arguments: nothing of an earlier (failed) call is left in a shared buffer
     import c11
     rep.guard(c11.i1, rep, w)    # ... and what it returns is an interned string made by the one constructor (a second way of making strings hashes differently: equal results are unequal)
+    import c02
+    rep.guard(c02.p13, rep, w, 'C13')   # a character is a code point: squeezed into a byte (a class table indexed with `c as u8`) the letters beyond Latin-1 are judged as some ASCII character
 
 
 def u1(rep, w):
@@ -52,12 +54,17 @@ def u1(rep, w):
                 if isinstance(sp, list) and sp[1]:
                     continue       # inside a std macro expansion
                 r.bad('%s calls %s' % (f.path, name), 'unchecked construction of string data: the result need not be valid UTF-8', f.loc(sp))
+            if tail == 'from_u32_unchecked' and 'char' in name and not (isinstance(t.get('sp'), list) and t['sp'][1]):
+                # a char made without the scalar-value test: the surrogates (0xD800..0xDFFF) pass a plain `<= 0x10ffff` range test, and a String
+                # they are pushed into is no longer UTF-8
+                r.bad('%s calls %s' % (f.path, name), 'a character is made from a number without char::from_u32\'s test: a surrogate code point (which a plain range test lets through) '
+                      'becomes part of a string that is not valid UTF-8', f.loc(t.get('sp')))
         for b in f.blocks:
             for s in b['s']:
                 rr = s.get('r', {})
                 if rr.get('rv') == 'cast' and 'Transmute' in rr['ck'] and not isinstance(s.get('sp'), list):
                     tt = f.crate.tstr(rr['t'])
-                    if 'str' in tt or 'String' in tt:
+                    if 'str' in tt or 'String' in tt or tt == 'char':
                         r.bad('%s transmutes to %s' % (f.path, tt), 'transmute into a string type bypasses UTF-8 validation', f.loc(s.get('sp')))
     r.ok('scanned %d call sites: no unchecked string construction' % n)
     f = w.require_fn(VM + 'new_gc_obj_string', 'C13')
@@ -243,7 +250,7 @@ def u3(rep, w):
                 checked = bool(through) and all_paths_to(f, bi, through)
                 r.check(from_iter or checked, key, 'this endpoint of a string slice is not passed to is_char_boundary/validate_char_boundary on '
                         'every path to the slice: slicing inside a multi-byte character panics', f.loc(t.get('sp')))
-    if n < 3:
+    if n < 1:
         raise Broken('C13', 'floor', 'only %d str range-index sites found' % n)
     # the iterator scans to a boundary
     it = w.require_fn('yarel::object::ObjStringIter::next', 'C13')
